@@ -202,8 +202,13 @@ def function_value_case(draw):
     False, 0 and 0.0 are values like any other"""
     kind = draw(st.sampled_from(["bool", "bool", "int", "float"]))
     val = draw(st.sampled_from({"bool": [False, False, True], "int": [0, 0, 3, -7], "float": [0.0, 0.0, 2.5, -1.5]}[kind]))
-    return {"fnval": True, "type": kind, "value": val, "how": draw(st.sampled_from(["definition", "definition", "declared_then_assigned",
-                                                                                   "reassigned_typed", "reassigned_untyped"]))}
+    funit = None
+    if kind == "float" and draw(st.booleans()):
+        # the function returns a number WITH a unit (docs: functions may return DIP data types, the value is converted into
+        # the unit of the node); either side may be a unit defined in the text
+        funit = draw(st.sampled_from([["cm", "m"], ["m", "cm"], ["[flen]", "m"], ["m", "[flen]"], ["[flen]", "[flen]"], ["km", "[flen]"]]))
+    return {"fnval": True, "type": kind, "value": val, "funit": funit,
+            "how": draw(st.sampled_from(["definition", "definition", "declared_then_assigned", "reassigned_typed", "reassigned_untyped"]))}
 
 
 def strategies(tier):
@@ -412,13 +417,30 @@ def _check_function_value(case, v):
     other = {"bool": "true", "int": "9", "float": "9.5"}[t]
     L = {"definition": [f"x0 {t} = (give)"], "declared_then_assigned": [f"x0 {t}", "x0 = (give)"],
          "reassigned_typed": [f"x0 {t} = {other}", f"x0 {t} = (give)"], "reassigned_untyped": [f"x0 {t} = {other}", "x0 = (give)"]}[how]
+    funit = case.get("funit")
+    ret = val
+    if funit:
+        from scinumtools.dip.datatypes import FloatType
+        ufrom, uto = funit
+        # the node states its unit where it is first written; the call '(give)' is followed by the unit as well
+        L = [ln.replace(f"x0 {t} = {other}", f"x0 {t} = {other} {uto}").replace(f"x0 {t} = (give)", f"x0 {t} = (give) {uto}")
+             .replace(f"x0 {t}", f"x0 {t} {uto}") if ln == f"x0 {t}" else
+             ln.replace(f"x0 {t} = {other}", f"x0 {t} = {other} {uto}").replace(f"x0 {t} = (give)", f"x0 {t} = (give) {uto}")
+             for ln in L]
+        # (an assignment that states no unit is taken to be in the unit of the definition, so every call states one)
+        L = [ln + f" {uto}" if ln == "x0 = (give)" else ln for ln in L]
+        L = ["$unit flen = 2.5 m"] + L
+        FU = {"cm": 0.01, "m": 1.0, "km": 1000.0, "[flen]": 2.5}
+        ret = FloatType(val, ufrom)
+        val = val * FU[ufrom] / FU[uto] if ufrom != uto else val
+        v.label("function_returns_a_number_with_unit", "custom_unit" if "[flen]" in funit else "standard_units")
     text = "\n".join(L + ["after int = 1"])
-    v.info = {"text": text + f"   [give() returns {val!r}]"}
+    v.info = {"text": text + f"   [give() returns {ret!r}]"}
     v.nt(True)
     v.label("value_from_function", how, "falsy" if not val else "truthy")
     try:
         with DIP(name=f"c14_{next(_uid)}") as p:
-            p.add_function("give", lambda data, _v=val: _v)
+            p.add_function("give", lambda data, _v=ret: _v)
             p.add_string(text)
             env = p.parse()
     except Exception as e:
@@ -427,6 +449,10 @@ def _check_function_value(case, v):
         got = D.to_py(env.data(Format.TUPLE)["x0"])
     except Exception as e:
         return v.fail("unreadable", f"parse() returned an environment whose data() raises {e!r}:\n{text}\n[give() returns {val!r}]")
+    if funit:
+        if not isinstance(got, (tuple, list)) or got[1] != funit[1] or abs(got[0] - val) > 1e-9 * max(1.0, abs(val)):
+            return v.fail("value", f"x0 = {got!r}, the function returns {ret!r}, which is {val!r} {funit[1]}:\n{text}")
+        return
     if got != val or type(got) is not type(val):
         return v.fail("value", f"x0 = {got!r}, the function returns {val!r}:\n{text}")
 
